@@ -4,7 +4,9 @@ NOT_BUILT_REASON = ("check not built yet in this round (design in DESIGN.md §5)
 
 _NOTE = ("Trusted base: CPython ast of /venv/bin/python 3.12, the checker code in /verif/sa, and the "
          "source files of the installed dependencies it reads (digests in evidence). Assumes Python "
-         "semantics of the constructs it models; decides only the clauses named in the level text.")
+         "semantics of the constructs it models (54 conformance cases against CPython in tools/evalconf.py); "
+         "decides only the clauses named in the level text. Every abstract input is built through the model "
+         "classes' own constructors / add_relation evaluated from source and read back (<prop>-MODEL).")
 
 CHECKS = {
  "C03": {
@@ -12,9 +14,12 @@ CHECKS = {
            "well-formed cardinality domain and equal their defining regions (complete by order-type "
            "abstraction: they only compare card_min/card_max/len(children)); every feature-level predicate and "
            "filtered listing is formula-equal to the class it names over all parent contexts; FeatureType "
-           "predicates partition the enum; get_relations/get_features satisfy the inductive step of "
-           "'each element exactly once'; lookup by name is exact. Not decided: well-formedness of reader "
-           "output (C02), termination on cyclic inputs."),
+           "predicates partition the enum; get_relations/get_features list each element exactly once in pre-order "
+           "(inductive step when recursive, whole-function comparison on the abstract tree family otherwise); "
+           "lookup by name is exact; every listing equals the base listing filtered by the definition of its class "
+           "on an abstract model with an element of every class; every query re-asked after an in-place edit of "
+           "the tree answers for the edited tree. Not decided: well-formedness of reader output (C02), "
+           "termination on cyclic inputs."),
   "design_ref": "DESIGN.md §5 C03", "note": _NOTE,
   "technique": "static analysis: predicate ASTs as formulas decided over a finite order-type abstraction; inductive-step check of recursive listings; structural filter normal forms"},
  "C20": {
@@ -59,8 +64,11 @@ CHECKS = {
            "realising every distinguishing situation (root-only, edge, chain, deepest leaf in the middle, several "
            "relations, ratio needing rounding) against its definition, with no raise on the root-only model; ancestors "
            "loop branch-free + chains 0..4 in order; variation points by a Hoare-style step check over all "
-           "well-formed cardinalities; operation classes return the helper's value. Not decided: aggregate operations "
-           "beyond the abstract family; corpus agreement."),
+           "well-formed cardinalities; operation classes return the helper's value; on a chain of 6 and of 12 features "
+           "each helper reaches the same nesting of calls (no function on its path recurses once per tree level, so "
+           "a deep well-formed model cannot end in RecursionError); trees with sibling names differing only in case "
+           "or edge blanks, a tree built incrementally, and trees edited in place after a first analysis. Not "
+           "decided: aggregate operations beyond the abstract family; corpus agreement."),
   "design_ref": "DESIGN.md §5 C16", "note": _NOTE,
   "technique": "static analysis: formula evaluation of helper ASTs on abstract trees; loop-step check for variation points; totality (no reachable raise) on the root-only model"},
  "C18": {
